@@ -91,6 +91,8 @@ pub struct SinkState {
     pub pending_this_poll: bool,
     /// global event index of each start_send (to order hand-overs across sinks)
     pub handed_ev: Vec<usize>,
+    /// frames the production sink would refuse to encode (> 1 MiB payload): offered, not accepted
+    pub refused_oversize: Vec<Frame>,
 }
 
 impl SinkState {
@@ -115,6 +117,7 @@ impl SinkState {
             polls_this_poll: 0,
             pending_this_poll: false,
             handed_ev: vec![],
+            refused_oversize: vec![],
         }
     }
     pub fn healthy(&self) -> bool {
@@ -318,6 +321,15 @@ impl Sink<Frame> for MockSink {
         if Self::should_fail(s, Op::StartSend) {
             w.ev(0, id, 1, OUT_ERR);
             return Err(sim_err());
+        }
+        // the production sink (FramedWrite<MessageCodec>) refuses to encode a payload above 1 MiB;
+        // the sink itself stays usable, only this item is not accepted
+        if item.get_length().map(|l| l > 1024 * 1024).unwrap_or(false) {
+            s.refused_oversize.push(item);
+            s.errored = true;
+            s.errored_at_handed = s.handed.len();
+            w.ev(0, id, 1, OUT_ERR);
+            return Err(SeliumError::Protocol(selium_std::errors::ProtocolError::PayloadTooLarge(0, 1024 * 1024)));
         }
         s.handed.push(item);
         s.handed_ev.push(evn);
